@@ -1,0 +1,32 @@
+//go:build verif
+
+package leader
+
+import "github.com/nats-io/nats.go"
+
+// This file is compiled only with the "verif" build tag. It gives the
+// verification harness under /verif access to things the package does not
+// export and a yield hook for the failpoint sites marked with
+// failpoint-var comments (inert comments in every ordinary build;
+// turned into code by `gofail enable` on a scratch copy only).
+
+// VerifNewKeyValue returns the package's real KeyValue adapter for a NATS
+// connection and bucket, built the same way NewElectionWithConn builds it.
+func VerifNewKeyValue(nc *nats.Conn, bucket string) (KeyValue, error) {
+	js, err := (&natsConnAdapter{nc: nc}).JetStream()
+	if err != nil {
+		return nil, err
+	}
+	return js.KeyValue(bucket)
+}
+
+// VerifYield, when set (before any election is started), is called at every
+// activated failpoint site with the site's name. It runs without any library
+// lock held.
+var VerifYield func(site string)
+
+func verifYield(site string) {
+	if f := VerifYield; f != nil {
+		f(site)
+	}
+}
